@@ -54,6 +54,7 @@ def struct(st):
         'struct.transport-not-none': FA([n, s], z3.Implies(member(st, n, NONE, s), v3[n][NONE][s] != NONE),
                                                patterns=[d3[n][NONE][s]]),
         'struct.sid-not-none': FA([n, ro], z3.Implies(pres, z3.Not(d3[n][ro][NONE])), patterns=[d3[n][ro][NONE]]),
+        'struct.namespaces-truthy': FA([n], z3.Implies(r.c['dom'][n], smt.truthy(n)), patterns=[r.c['dom'][n]]),
     }
 
 
